@@ -173,7 +173,7 @@ class Bits(Mapping):
     @staticmethod
     def _get_bits(key):
         if isinstance(key, slice):
-            bits = range(key.start, key.stop, key.step)
+            bits = range(key.start, key.stop, key.step or 1)
         elif isinstance(key, int):
             bits = [key]
         else:
